@@ -285,6 +285,7 @@ def diff_stream(stream, trace_path, norm_impl=None, norm_model=None):
     ops, impl = read_trace(trace_path)
     model = drive(stream, ops)
     mism = []
+    nmism = 0
     case, case_start = 0, 0
     for i, (o, a, b) in enumerate(zip(ops, impl, model)):
         if o == "reset":
@@ -292,10 +293,12 @@ def diff_stream(stream, trace_path, norm_impl=None, norm_model=None):
         a1 = norm_impl(o, a) if norm_impl else a
         b1 = norm_model(o, b) if norm_model else b
         if a1 != b1:
-            mism.append({"case": case, "index": i, "op": o, "impl": a, "model": b,
-                         "prefix": ops[case_start:i + 1]})
+            nmism += 1
+            if len(mism) < 200:
+                mism.append({"case": case, "index": i, "op": o, "impl": a, "model": b,
+                             "prefix": ops[max(case_start, i - 200):i + 1]})
     n = sum(1 for o in ops if o != "reset")
-    return {"evaluations": n, "mismatches": mism, "ops": ops, "impl": impl, "model": model}
+    return {"evaluations": n, "mismatches": mism, "n_mismatches": nmism, "ops": ops, "impl": impl, "model": model}
 
 
 # ---------------------------------------------------------------- known findings, replays, evidence
